@@ -38,4 +38,16 @@ var specs = map[string]propSpec{
 		Rule: "rapid generates a world as for C01 with layout stress (multi-byte comments/strings/keys, CRLF, blank lines, 0-2 edits); every query runs at every offset (files <= 260 bytes, else thinned) and every hcl.Range reachable from every result (candidates incl. additional edits, hover, tokens, symbol trees, collected targets incl. nested / def / targetable-from ranges, origins, lookup results checked against the files of the reported path, links, diagnostic subject/context) is checked: file belongs to the path, 0 <= start <= end <= len, line/column recomputed independently (newline count + grapheme clusters). evaluations = ranges checked. Exempt: pass-through schema ranges; ranges inside top-level items whose parser AST already carries an inconsistent range (counted as excluded upstream-range). Non-trivial = the case produced at least one computed range (not byte-identical to an AST node or lexer token range); distinct = SHA-1 of the case JSON.",
 		Assumptions: commonAssumptions,
 	},
+	"C17": {
+		Test: "TestC17", Quick: 4000, Thorough: 40000, Shards: 16,
+		QuickTimeout: 10 * time.Minute, ThoroughTimeout: 40 * time.Minute,
+		Rule: "rapid draws a type with a Copy method (32 schema/lang types incl. all 12 constraints), a nesting depth 1-4 and a tape of choices; a reflection-driven populator walks the Go struct definitions and fills every field (so fields added later are populated automatically; a field it cannot populate fails the check). Oracle: Copy() does not panic and does not modify the receiver; canonical deep rendering of copy equals that of the original (nil == empty); scrambling every map/slice/pointee reachable from the copy leaves the deep snapshot of the original unchanged, and vice versa (constraints, addresses and cty values exempt as the statement says). Non-trivial = the value holds at least one non-empty map/slice; distinct = SHA-1 of (type, depth, tape).",
+		Assumptions: []string{"constraints, schema.Address, lang.Address and cty types/values are immutable by convention and may be shared (property statement)", "held on everything explored"},
+	},
+	"C03": {
+		Test: "TestC03", Quick: 150, Thorough: 2000, Shards: 16,
+		QuickTimeout: 10 * time.Minute, ThoroughTimeout: 40 * time.Minute,
+		Rule: "rapid generates a world with wide bodies (13-40 attributes / blocks / functions, 60% of attributes addressable so same-address targets occur), 1-2 paths x 1-3 files, a list of 6-12 positional/file queries plus all whole-path queries (collect targets/origins, validate, workspace symbols, tokens, symbols) and a history of 0-10 other queries. Metamorphic oracle: the canonical rendering of every query result (order sensitive; diagnostics as multiset) must be equal across 5 repetitions on the same decoder, after the history, and on 3 freshly built worlds (schema rebuilt, files re-parsed, references re-collected); evaluations = comparisons. Non-trivial = some compared result is a collection with >= 2 elements (class wide when >= 13, where sort.Sort stops being stable); distinct = SHA-1 of the case JSON.",
+		Assumptions: commonAssumptions,
+	},
 }
